@@ -1275,10 +1275,21 @@ func specKeyedMapOp(op Operation) bool {
 //@   trusted
 //@   ensures true
 
+// While deferred calls run after a panic the machine has no current function
+// (VM.runFunc sets vm.fn to nil before it resumes with nextCall); a deferred
+// native function that panics, or an out error raised then, is converted in
+// that state, so neither function may assume a current function.
 //@ func (*VM).newPanic
 //@   props C12
-//@   requires vm.fn != nil
 //@   ensures result != nil && result.message == msg && result.next == nil && !result.recovered
+
+//@ func (*VM).convertPanic@unwinding
+//@   props C05 C12
+//@   opt puremethods Error
+//@   opt stable VM Function
+//@   requires vm != nil && vm.fn == nil
+//@   ensures[C12] specIsStop(msg) ==> result == msg
+//@   ensures[C12] result != nil
 
 // runFunc (goroutine, atomics, recover: outside the verifier's subset) is
 // trusted for one fact: pointers it returns inside the error are not nil.
@@ -1776,8 +1787,12 @@ func specShiftOK(in Instruction) bool { return in.Op >= 0 && in.A >= 0 && in.B >
 //@   ensures vm.fp == old(vm.fp) && vm.st[0] == old(vm.st[0]) && vm.st[1] == old(vm.st[1]) && vm.st[2] == old(vm.st[2])
 //@   ensures len(vm.regs.int) == old(len(vm.regs.int)) && len(vm.regs.float) == old(len(vm.regs.float)) && len(vm.regs.string) == old(len(vm.regs.string))
 
+// A call frame records the renderer in use when it is pushed: nextCall restores
+// vm.renderer from the frame it resumes (after deferred calls and recovered
+// panics), so a frame without it leaves a template without a renderer.
 //@ clause (*VM).run/case OpCallFunc
 //@   props X00 C05
+//@   litassert[C05] callFrame 0 lit.renderer == vm.renderer
 //@   opt stable VM Function
 //@   requires vm != nil && specRegsOK(vm, vm.fn) && int(vm.pc) < len(vm.fn.Body) && specShiftOK(vm.fn.Body[vm.pc])
 //@   requires int(uint8(a)) < len(vm.fn.Functions) && vm.fn.Functions[uint8(a)] != nil
@@ -1787,6 +1802,7 @@ func specShiftOK(in Instruction) bool { return in.Op >= 0 && in.A >= 0 && in.B >
 
 //@ clause (*VM).run/case OpCallMacro
 //@   props X00 C05
+//@   litassert[C05] callFrame 0 lit.renderer == vm.renderer
 //@   opt stable VM Function
 //@   requires vm != nil && specRegsOK(vm, vm.fn) && int(vm.pc) < len(vm.fn.Body) && specShiftOK(vm.fn.Body[vm.pc])
 //@   requires len(vm.regs.int) <= 1<<30 && len(vm.regs.float) <= 1<<30 && len(vm.regs.string) <= 1<<30 && len(vm.regs.general) <= 1<<30
@@ -1829,6 +1845,7 @@ func specShiftOK(in Instruction) bool { return in.Op >= 0 && in.A >= 0 && in.B >
 // not negative (the builder hands out registers 1..127, C20).
 //@ clause (*VM).run/case OpCallIndirect
 //@   props X00 C05
+//@   litassert[C05] callFrame 0 lit.renderer == vm.renderer
 //@   opt stable VM Function callable
 //@   opt puremethods Interface
 //@   opt track callNative
